@@ -103,7 +103,10 @@ def plan(fn: Any, mod: Any = None) -> tuple[list[Param], str]:
             anyd = False
         if dv.symbolic:
             return params, f"symbolic dimension for {p.name}"
-        if "QuantityVector" in ann:
+        if "QuantityVector" in ann and ("Sequence[" in ann or "Iterable[" in ann or ann.startswith(
+                "list[")):
+            params.append(Param(p.name, "qvseq", dv, decl, pos, n=3))
+        elif "QuantityVector" in ann:
             params.append(Param(p.name, "qvector", dv, decl, pos, n=3))
         elif "Sequence" in ann or ann.startswith("list[") or "Iterable" in ann:
             params.append(Param(p.name, "seq", dv, decl, pos, n=3))
@@ -198,7 +201,7 @@ def quantity(dv: dims.DimVec, magnitude: Any, spelling: str = "si") -> Any:
     raise ValueError(spelling)
 
 
-def realise_param(p: Param, scale: float = 1.0, spelling: str = "si") -> Any:
+def realise_param(p: Param, scale: float = 1.0, spelling: str = "si", vshape: str = "") -> Any:
     from symplyphysics import Quantity, QuantityVector
     m = p.m0 * scale
     if p.kind == "quantity":
@@ -227,14 +230,21 @@ def realise_param(p: Param, scale: float = 1.0, spelling: str = "si") -> Any:
 
         return mk(p.shape)
     if p.kind == "qvector":
+        if vshape == "axis":
+            # vector parameters along different axes: mutually perpendicular
+            return QuantityVector([quantity(p.dim, m if i == p.pos % 3 else 0, spelling) for i in
+                range(p.n)])
         # components not proportional to those of the vector at another position
         return QuantityVector([quantity(p.dim, m * (1 + 0.3 * i + 0.17 * p.pos * i * i), spelling)
             for i in range(p.n)])
+    if p.kind == "qvseq":
+        return [QuantityVector([quantity(p.dim, m * (1 + 0.3 * i + 0.17 * (j + 1) * i * i + 0.4 * j),
+            spelling) for i in range(3)]) for j in range(p.n)]
     raise ValueError(p.kind)
 
 
 def call_args(params: list[Param], scales: Optional[dict] = None,
     spellings: Optional[dict] = None) -> dict:
     scales, spellings = scales or {}, spellings or {}
-    return {p.name: realise_param(p, scales.get(p.name, 1.0), spellings.get(p.name, "si"))
-        for p in params if p.kind not in ("default", "free")}
+    return {p.name: realise_param(p, scales.get(p.name, 1.0), spellings.get(p.name, "si"),
+        str(scales.get("__vshape__", ""))) for p in params if p.kind not in ("default", "free")}
